@@ -46,6 +46,7 @@ class _SimFile:
         self.encoding = encoding or "utf8"
         self.binary = "b" in mode
         self.closed = False
+        self._faulted = False
         self._dead = disk.dead
         if self._dead:
             self._f = None
@@ -61,6 +62,8 @@ class _SimFile:
             data = data.encode(self.encoding)
         data = bytes(data)
         kind = self.disk.tick("write", self.path)
+        if kind is not None:
+            self._faulted = True
         if kind == "enospc_write":
             self._f.write(data[: len(data) // 2])
             raise InjectedIOError(errno.ENOSPC, "No space left on device (injected)", self.path)
@@ -79,6 +82,7 @@ class _SimFile:
 
     # -- reading
     def _pre_read(self):
+        self.disk.op_reads.add(self.disk.rel(self.path))
         kind = self.disk.tick("read", self.path)
         if kind == "eio_read":
             raise InjectedIOError(errno.EIO, "Input/output error (injected)", self.path)
@@ -123,6 +127,8 @@ class _SimFile:
                     self.disk.kill()
                     self._f.close()
                     raise ProcessKilled(f"killed at close of {self.path}")
+                if self.writable() and not self._faulted:
+                    self.disk.tainted.discard(self.disk.rel(self.path))
             self._f.close()
 
     def __enter__(self):
@@ -157,6 +163,14 @@ class SimDisk:
         self._armed = None  # dict(kind, k, base)
         self._mods = []
         self.history = []
+        self.tainted = set()  # files whose (over)write was interrupted by an injected fault
+        self.op_reads = set()  # files read during the current operation
+
+    def begin_op(self):
+        self.op_reads = set()
+
+    def rel(self, path):
+        return os.path.relpath(path, self.root)
 
     # seam installation --------------------------------------------------
     def install(self, *modules):
@@ -216,6 +230,8 @@ class SimDisk:
         self._armed = None
         self.ctx.fired("disk:" + kind)
         self.history.append((self.calls, what, kind, os.path.relpath(path, self.root)))
+        if what in ("write", "close") or (what == "open" and getattr(self, "_opening_w", False)):
+            self.tainted.add(self.rel(path))
         return kind
 
     # the seam itself ------------------------------------------------------
@@ -226,6 +242,7 @@ class SimDisk:
         if not os.path.abspath(path).startswith(self.root):
             # anything outside the simulated disk (never the case for the engines) goes through
             return builtins.open(path, mode, *args, **kwargs)
+        self._opening_w = any(c in mode for c in "wa+")
         kind = self.tick("open", path)
         if kind == "eio_open":
             raise InjectedIOError(errno.EIO, "Input/output error (injected)", path)
